@@ -102,7 +102,7 @@ def tiOp (o : Op) : TokInfo Rat := { start := 0, stop := 0, tok := some (.op o) 
 
 macro "match_date" : tactic => `(tactic|
   (refine ⟨_, rfl, ?_, ?_⟩ <;>
-   simp [findMatch, findMatch.go, ti, tiOp, num, infoEq, tokEq, tokFieldCompare, fieldNameOf,
+   simp [findMatch, findMatch.go, sameTok, ti, tiOp, num, infoEq, tokEq, tokFieldCompare, fieldNameOf,
      Field.name, Fields.insert, Tok.typeName, Item.typeName, lowerEq, Op.ofChar]))
 
 /-- `Month day, year` -/
@@ -154,7 +154,7 @@ theorem phrase_tr (d m' y : Rat) (m : Nat) :
     (∃ pat, (Gen.rule_tr_small_date Rat).patterns[2]? = some pat ∧
       (findMatch ([] : Vars Rat) pat [ti (num d), ti (.month m)]).found = true) := by
   refine ⟨⟨_, rfl, ?_⟩, ⟨_, rfl, ?_⟩, ⟨_, rfl, ?_⟩⟩ <;>
-    simp [findMatch, findMatch.go, ti, tiOp, num, infoEq, tokEq, tokFieldCompare, fieldNameOf,
+    simp [findMatch, findMatch.go, sameTok, ti, tiOp, num, infoEq, tokEq, tokFieldCompare, fieldNameOf,
       Field.name, Fields.insert, Tok.typeName, Item.typeName, lowerEq, Op.ofChar]
 
 /-! ### day numbers of representable dates -/
